@@ -54,12 +54,17 @@ def build():
                      'results are arbitrary byte strings; refpos(_uint16_packer(x)) == x is the (assumed) meaning of a 2-byte reference')
     w.trusted.append('functools.singledispatch dispatch of _describe_type: the call is checked against contract DT, which every registered '
                      'implementation under contract is proved to satisfy (induction over the type structure; termination = well-founded schema types, assumed)')
-    for p_ in ('_uint32_packer', '_uint8_packer', '_int32_packer'):
+    for p_ in ('_uint8_packer', '_int32_packer'):
         w.ext_funcs[p_] = dict(params={'x': 'int'}, returns='bytes')
     w.ext_funcs['_uint16_packer'] = dict(params={'x': 'int'}, returns='bytes', ensures=['refpos(result) == x'])
-    w.ext_funcs['_string_packer'] = dict(params={'s': 'str'}, returns='bytes')
-    w.ext_funcs['_name_packer'] = dict(params={'n': 'Obj'}, returns='bytes')
-    w.ext_funcs['_bool_packer'] = dict(params={'b': 'bool'}, returns='bytes')
+    # string / name / bool fields: under contract (byte-level): a string field is the 4-byte length *in bytes of the UTF-8 encoding* followed by that encoding
+    w.ufunc('utf8', ['str'], 'bytes'); w.ufunc('u32', ['int'], 'bytes')
+    w.exec_defs = {'utf8': "lambda s: s.encode('utf-8')", 'u32': "lambda n: __import__('struct').pack('!L', n)"}
+    w.trusted.append('str.encode("utf-8") is an uninterpreted function utf8(s) (its byte length is not the character count); struct.Struct("!L").pack(n) is u32(n)')
+    w.ext_funcs['_uint32_packer'] = dict(params={'x': 'int'}, returns='bytes', ensures=['result == u32(x)'])
+    w.contract(SER, '_string_packer', params={'s': 'str'}, returns='bytes', pure=True, ensures=['result == u32(len(utf8(s))) + utf8(s)'])
+    w.contract(SER, '_name_packer', params={'n': 'Obj'}, returns='bytes', ensures=['exists(str, lambda x: result == u32(len(utf8(x))) + utf8(x))'])
+    w.contract(SER, '_bool_packer', params={'b': 'bool'}, returns='bytes', pure=True, ensures=['result == (b"\\x01" if b else b"\\x00")'])
     # schema object accessors (outside reach: schema layer) -- arbitrary results
     for m, rt in (('get_subtypes', 'Seq[Obj]'), ('is_named', 'bool'), ('get_element_names', 'Seq[str]'), ('get_schema_name', 'str'),
                   ('get_name', 'Obj'), ('get_is_persistent', 'bool'), ('is_compound_type', 'bool'), ('is_enum', 'bool'),
@@ -169,6 +174,7 @@ def build():
                optional=('element_names', 'cardinalities', 'links_props', 'links', 'has_implicit_fields', 'sources'), returns='Obj')
     w.ext_funcs['_get_object_shape_id'] = OSI
     OSI_FRESH = dict(OSI, state=['ctx'], ensures=['not (result in ctx.uuid_to_pos)'])
+    w.opaque_exprs['EMPTY_TUPLE_DESC'] = 'bytes'; w.opaque_exprs['EMPTY_TUPLE_ID'] = 'Obj'
     w.opaque_exprs['NULL_TYPE_DESC'] = 'bytes'; w.opaque_exprs['NULL_TYPE_ID'] = 'Obj'
     w.opaque_exprs['UUID_TYPE_ID'] = 'Obj'; w.opaque_exprs['STR_TYPE_ID'] = 'Obj'
     w.contract(SER, 'Context.__init__', inline=True)
